@@ -1164,7 +1164,7 @@ var corePrims = []prim{
 func num(f float64) value   { return pv(pNum(f)) }
 func str(s string) value    { return pv(pStr(s)) }
 
-// pinned witnesses of the recorded findings, open (classes 2, 3, 4, 7) and repaired (ToInt32 beyond 2^63: 02e659b,
+// pinned witnesses of the recorded findings, open (classes 2, 3, 7) and repaired (ToInt32 beyond 2^63: 02e659b, string < by code units: b6ed2ef,
 // a + b order: 0c8f777, x op= e order: 3657e0a, instanceof on a bound function: ea21c58; these now expect the
 // ES5 result and a relapse is a violation); they run first on every seed
 func (g *gen) pinned() {
@@ -1179,7 +1179,7 @@ func (g *gen) pinned() {
 	}
 	// class 3: hex literal >= 2^63
 	g.runCase(u, un(0, lit(str("0x8000000000000000"))), "pinned", true)
-	// class 4: string comparison
+	// repaired (b6ed2ef): string comparison by code units
 	g.runCase(u, bin(15, lit(str("\uffff")), lit(str("\U00010000"))), "pinned", true)
 	// repaired (0c8f777): a + b with a.valueOf writing b
 	g.nextID = 1
@@ -1473,6 +1473,20 @@ func runC05(env *Env) {
 			}
 			continue
 		}
+		if r.Intn(25) == 0 { // sign rules of / % * + - on zeros, infinities and NaN
+			sp := []float64{0, math.Copysign(0, -1), math.Inf(1), math.Inf(-1), math.NaN(), 1, -1, 5, -5, 0.5, -0.5, 1.7976931348623157e308, -5e-324}
+			vs := g.vars(false, false)
+			op := Pick(r, []int{3, 3, 3, 4, 4, 2, 0, 1})
+			var e *expr
+			if r.Intn(4) == 0 {
+				vs[0] = num(Pick(r, sp))
+				e = cmpd(op, 0, g.operand(num(Pick(r, sp)), &vs, 1))
+			} else {
+				e = bin(op, g.operand(num(Pick(r, sp)), &vs, 0), g.operand(num(Pick(r, sp)), &vs, 1))
+			}
+			g.runCase(vs, e, "arith-special", true)
+			continue
+		}
 		if r.Intn(9) == 0 {
 			vs, e := g.history()
 			g.runCase(vs, e, "history", true)
@@ -1571,11 +1585,29 @@ func runC05(env *Env) {
 			g.runCase(tv, e, "toint", true)
 		case k < 12: // arithmetic on doubles
 			vs := g.vars(false, false)
-			g.runCase(vs, bin(Pick(r, arithOps), g.operand(num(g.double()), &vs, 0), g.operand(num(g.double()), &vs, 1)), "arith", true)
+			x, y := g.double(), g.double()
+			if r.Intn(2) == 0 { // signed zeros, infinities and NaN against small finite values: every sign rule of 11.5 / 11.6
+				sp := []float64{0, math.Copysign(0, -1), math.Inf(1), math.Inf(-1), math.NaN(), 1, -1, 5, -5, 0.5, -0.5, 1.7976931348623157e308, -1.7976931348623157e308, 5e-324, -5e-324}
+				x, y = Pick(r, sp), Pick(r, sp)
+			}
+			g.runCase(vs, bin(Pick(r, arithOps), g.operand(num(x), &vs, 0), g.operand(num(y), &vs, 1)), "arith", true)
 		case k < 13: // relational / equality on strings
 			a, b := pStr(Pick(r, cmpStrings)), pStr(Pick(r, cmpStrings))
 			if r.Intn(3) == 0 {
 				a = pUnits(append(append([]uint16{}, a.s...), b.s...))
+			}
+			if r.Intn(2) == 0 { // random strings over astral characters, U+E000..U+FFFF, the surrogate neighbours and ASCII, sharing a prefix
+				alphabet := []rune{'a', 'b', 0x7f, 0x80, 0x7ff, 0x800, 0xd7ff, 0xe000, 0xf000, 0xfffd, 0xffff, 0xff61, 0x10000, 0x10001, 0x103ff, 0x10400, 0x1f600, 0x10ffff, 0xfffe}
+				mk := func(n int) []rune {
+					u := make([]rune, n)
+					for i := range u {
+						u[i] = Pick(r, alphabet)
+					}
+					return u
+				}
+				pre := mk(r.Intn(3))
+				a = pStr(string(append(append([]rune{}, pre...), mk(r.Intn(3))...)))
+				b = pStr(string(append(append([]rune{}, pre...), mk(r.Intn(3))...)))
 			}
 			g.runCase(g.vars(false, false), bin(Pick(r, cmpOps), lit(pv(a)), lit(pv(b))), "strcmp", true)
 		case k < 16: // operand order: operands are variables holding objects whose methods write variables
